@@ -92,8 +92,8 @@ class ReadCd(SCSICommand):
         """
         result = {}
 
-        est = kwargs["est"]
-        mcsb = kwargs["mcsb"] << 3
+        est = kwargs.get("est", 0)
+        mcsb = kwargs.get("mcsb", 0) << 3
         # Need to remap according to MMC:
         # Table 354 — Main Channel Selection and Mapped Values
         if (
@@ -236,20 +236,20 @@ class ReadCd(SCSICommand):
                         "EDC/ECC not yet implemented for this MCSB/EST combination"
                     )
 
-            if kwargs["c2ei"] == 1:
+            if kwargs.get("c2ei", 0) == 1:
                 r["c2ei-data"] = d[:294]
                 d = d[294:]
-            if kwargs["c2ei"] == 2:
+            if kwargs.get("c2ei", 0) == 2:
                 r["c2ei"] = {}
                 r["c2ei"]["data"] = d[:296]
                 d = d[296:]
 
-            if kwargs["scsb"] == 2:
+            if kwargs.get("scsb", 0) == 2:
                 r["subchannel"] = {}
                 convert.decode_bits(d, cls._sc2_bits, r["subchannel"])
                 r["subchannel"]["data"] = d[:16]
                 d = d[16:]
-            if kwargs["scsb"] == 4:
+            if kwargs.get("scsb", 0) == 4:
                 r["subchannel"] = {}
                 r["subchannel"]["data"] = d[:96]
                 d = d[96:]
